@@ -4,6 +4,7 @@ import (
 	"bytes"
 	"context"
 	"fmt"
+	"io"
 	"net/http"
 	"os"
 	"runtime"
@@ -160,7 +161,9 @@ func buildC10(k *c10Case, inner restful.CompressorProvider) *c10Env {
 		c.RecoverHandler(func(v interface{}, w http.ResponseWriter) {
 			env.recN++
 			env.recVal = v
-			w.WriteHeader(500)
+			// the recover handler decides status and headers of its answer
+			w.Header().Set("Retry-After", "7")
+			w.WriteHeader(503)
 			env.curLog.write(w, []byte("RECOVERED:injected:"+env.curPos))
 		})
 	}
@@ -186,6 +189,11 @@ func buildC10(k *c10Case, inner restful.CompressorProvider) *c10Env {
 		want := req.Request.Header.Get("X-Panic")
 		if want == "H:before" {
 			env.throw(want)
+		}
+		if want == "H:readentity" {
+			// the request body (declared gzip) panics while the entity is read: the panic comes out of ReadEntity
+			var v map[string]interface{}
+			req.ReadEntity(&v)
 		}
 		l.write(resp, []byte("payload-part-1;"))
 		if want == "H:between" {
@@ -215,7 +223,17 @@ func buildC10(k *c10Case, inner restful.CompressorProvider) *c10Env {
 	return env
 }
 
+// c10PanicBody is a request body whose Read panics (with a value of the configured kind).
+type c10PanicBody struct{ e *c10Env }
+
+func (b *c10PanicBody) Read(p []byte) (int, error) {
+	b.e.throw("H:readentity")
+	return 0, io.EOF
+}
+func (b *c10PanicBody) Close() error { return nil }
+
 type c10Resp struct {
+	retry   string // Retry-After as it stood when the status line went out
 	lenErr  error
 	status  int
 	ce      string
@@ -234,7 +252,15 @@ func (e *c10Env) send(k *c10Case, path, panicAt string) *c10Resp {
 	}
 	l := &wlog{}
 	e.curLog, e.curPos = l, panicAt
+	if panicAt == "H:readentity" {
+		req.Hdr["Content-Encoding"] = "gzip"
+		req.HasCT, req.CT = true, "application/json"
+	}
 	hr := rt.HTTPRequest(&req, nil)
+	if panicAt == "H:readentity" {
+		hr.Body = &c10PanicBody{e}
+		hr.ContentLength = -1
+	}
 	cctx := context.WithValue(context.Background(), wlogKey{}, l)
 	if k.Cancelled && panicAt != "" {
 		// the client has gone away: the request's context is cancelled before the panic happens
@@ -254,6 +280,9 @@ func (e *c10Env) send(k *c10Case, path, panicAt string) *c10Resp {
 		}
 	}()
 	out.status, out.ce, out.logged = rec.Code(), rec.Hdr().Get("Content-Encoding"), l.b.Bytes()
+	if rec.Sent != nil {
+		out.retry = rec.Sent.Get("Retry-After")
+	}
 	out.body, out.lenErr = rec.ClientBody()
 	return out
 }
@@ -272,7 +301,7 @@ func c10Positions() (routed, unrouted []string) {
 	for _, n := range []string{"C0", "C1", "S0", "S1", "R0", "R1"} {
 		routed = append(routed, n+":before", n+":after")
 	}
-	routed = append(routed, "H:before", "H:between", "H:after", "cond:eval")
+	routed = append(routed, "H:before", "H:readentity", "H:between", "H:after", "cond:eval")
 	unrouted = []string{"C0:before", "C0:after", "C1:before", "C1:after", "E:before", "E:after"}
 	return
 }
@@ -283,7 +312,7 @@ var c10Stop bool
 func c10(ctx *core.Ctx) {
 	quietLogs()
 	c10Stop = false
-	ctx.Rule("crash points enumerated completely: panic in each of 2 container / 2 service / 2 route filters before and after passing control, in the handler before / between / after its writes, in an If-condition, and (routing-failure request) in container filters and the custom error handler; x recovery {on, off} x coding {none, gzip, deflate} (container switch or route override) x provider {sync.Pool, bounded(1), custom} x entry {Dispatch, ServeHTTP} x filters writing output or not x custom/default recover handler x panic value kind {pointer, string, error, runtime error, http.ErrAbortHandler, typed-nil error, typed-nil Stringer, Stringer whose String panics} (value kinds on the sync.Pool / no-marker slice). Monitors: recover() around the entry, recording RecoverHandler, compressor ledger, probe requests replayed after every panic, Add+Remove afterwards (needs the write lock). Then sequences of 20 mixed panicking/normal requests per container. Non-trivial = every crash case; distinct by the full cell.")
+	ctx.Rule("crash points enumerated completely: panic in each of 2 container / 2 service / 2 route filters before and after passing control, in the handler before / between / after its writes and inside ReadEntity (a gzip-declared request body whose Read panics), in an If-condition, and (routing-failure request) in container filters and the custom error handler; x recovery {on, off} x coding {none, gzip, deflate} (container switch or route override) x provider {sync.Pool, bounded(1), custom} x entry {Dispatch, ServeHTTP} x filters writing output or not x custom (answers 503 with a header of its own) / default recover handler x panic value kind {pointer, string, error, runtime error, http.ErrAbortHandler, typed-nil error, typed-nil Stringer, Stringer whose String panics} (value kinds on the sync.Pool / no-marker slice). Monitors: recover() around the entry, recording RecoverHandler, compressor ledger, probe requests replayed after every panic, Add+Remove afterwards (needs the write lock). Then sequences of 20 mixed panicking/normal requests per container. Non-trivial = every crash case; distinct by the full cell.")
 	ctx.Assume("HandleWithFilter is excluded: the property speaks of routed dispatch",
 		"panic values are pointers so that 'the same value' is decided by identity")
 	defer func() {
@@ -449,8 +478,15 @@ func c10One(ctx *core.Ctx, ci int, k *c10Case, seq []string) {
 					if !k.CustomRec {
 						wroteBefore = len(r.logged) > 0
 					}
-					if !wroteBefore && r.status != 500 {
-						ctx.Violation(ci, "c10:status:"+pcell, fmt.Sprintf("nothing was written before the panic, status is %d", r.status), d)
+					wantStatus := 500
+					if k.CustomRec {
+						wantStatus = 503 // the custom recover handler answers 503 with a Retry-After header
+					}
+					if !wroteBefore && r.status != wantStatus {
+						ctx.Violation(ci, "c10:status:"+pcell, fmt.Sprintf("nothing was written before the panic, the recover handler answered %d, status is %d", wantStatus, r.status), d)
+					}
+					if !wroteBefore && k.CustomRec && r.retry != "7" {
+						ctx.Violation(ci, "c10:recover-header-lost:"+pcell, fmt.Sprintf("nothing was written before the panic; the header the recover handler set before its status is not part of the response head (Retry-After=%q)", r.retry), d)
 					}
 				}
 			} else {
